@@ -33,6 +33,21 @@ package main
 //       (library functions that stay parameters: f_utf8_DecodeRuneInString, f_strconv_ParseInt, f_string_runes;
 //        likewise strings.ToLower / ToUpper, x.M() on an interface parameter, v.String() of a data.Value)
 //     log.Print* (skipped: the process log is not modelled), hooks named in the configuration
+//     for i, ch := range s over the RUNES of a string (written out through utf8.DecodeRuneInString, see runeRange)
+//     a local `var b bytes.Buffer` as the bytes written so far: b.WriteString(s) b.Write(p) b.WriteByte(c) b.Reset()
+//       template.HTMLEscape(&b, p) (text/template; the escaping itself is the parameter f_template_HTMLEscape : bstr -> bstr)
+//       b.String() b.Bytes() b.Len(); any other use of the variable is refused (copies and pointers would alias)
+//     re.ReplaceAllString(s, repl) on a package-level `var re = regexp.MustCompile(<constant>)`: the parameter
+//       re_<var>_ReplaceAllString : bstr -> bstr -> bstr (one per variable; the pattern text is emitted as src_<pkg>_<var>_pattern);
+//       template.HTMLEscapeString as the parameter f_template_HTMLEscapeString
+//     fields of /repo interface type of a struct parameter: n.F.M() and n.F ==/!= nil through the parameters m_n_F_nil,
+//       m_n_F_M (a call on a nil field is None = Go's panic); a field that is a slice of nodes (of such an interface, or of
+//       pointers to a /repo struct with a String method), ranged over and read through x.String() and len: the parameter
+//       ms_n_F_String : list (option bstr) (None = a nil element)
+//     fmt.Sprintf with a constant format of text, %%, %s (a string, or such a field: its String(), "%!s(<nil>)" when nil),
+//       %d (an integer), %q (strconv.Quote as the parameter f_strconv_Quote)
+//     package-level `var m = make(map[V]K)` that a func init() fills as the inverse of a map literal (and nothing
+//       else touches): the inverse list, provided the literal's values are distinct
 //     panic(...)  and calls of methods whose own body ends in panic (t.errorf ...)
 //   over bool, the integer types (int, rune, byte, uint32, uint64, named ones such as
 //   itemType, ast.Pos, ast.AutoescapeType), string, []byte, slices and maps of those,
@@ -66,6 +81,9 @@ package main
 //     becomes `if c then [A; rest] else [rest]` when a branch can leave (return, break, continue, panic); when no branch
 //     can, the if is an expression whose value is the tuple of the variables its branches assign, and rest follows once:
 //     `let '(x, y) := (if c then [A; (x', y')] else (x, y)) in [rest]` (go_bind instead of let when A can panic).
+//     The same for a switch statement none of whose clauses can leave (fallthrough is allowed: the next clause's body
+//     is translated in place; break is not): `go_bind (let tag := e in if tag = k1 then [A1; A2; (x', y')] else if ...
+//     else (x, y)) (fun '(x, y) => [rest])`, so what follows a falling-through switch is translated once, not per case.
 //
 // LOOPS
 //   A loop becomes a top-level Fixpoint <function>_loop<k> (k = number of the loop in source
@@ -84,7 +102,6 @@ package main
 //       measure that is too small makes the translation answer None where Go goes on; a lemma
 //       `model = Some ...` about the function therefore also proves the measure sufficient, and
 //       where a lemma states None it says which of the two it is.
-//   Range over the runes of a string is not in the subset.
 //
 // STATE
 //   Go's effects on data the caller can see become results.  A function's changed state is
@@ -163,6 +180,11 @@ var (
 	tValue  = &gtype{kind: kValue, name: "data.Value", valueKind: -1}
 	tUInt   = &gtype{kind: kInt, name: "untyped int", bits: 0, signed: true, untyped: true, valueKind: -1}
 	tErr    = &gtype{kind: kBool, name: "error", valueKind: -1, isErr: true}
+	// a LOCAL bytes.Buffer, declared by `var x bytes.Buffer`: the bytes written so far (see bufferStmt)
+	tBuffer = &gtype{kind: kString, name: "bytes.Buffer", valueKind: -1}
+	// an element of a slice of nodes (a /repo interface with String() string, or a pointer to a /repo struct with a
+	// String method) that is only asked for its String(): what String() returns, None for a nil element
+	tStringer = &gtype{kind: kOther, name: "a node read through String()", valueKind: -1}
 )
 
 func intType(name string, bits int, signed bool) *gtype {
@@ -177,6 +199,9 @@ var basicInts = map[string]*gtype{
 }
 
 func (t *gtype) coq() string {
+	if t == tStringer {
+		return "option bstr"
+	}
 	switch t.kind {
 	case kBool:
 		return "bool"
@@ -206,6 +231,9 @@ func (t *gtype) coq() string {
 
 // storable: a type whose values can be elements of slices and maps: a supported type, or a struct of such fields.
 func (t *gtype) storable() bool {
+	if t == tStringer {
+		return true
+	}
 	if t.kind == kStruct {
 		if len(t.fields) == 0 {
 			return false
@@ -483,6 +511,9 @@ func (g *gen) resolveType(p *gpkg, f *ast.File, e ast.Expr, depth int) *gtype {
 				if p2 := g.gtPkg(q.Name); len(p2.files) > 0 {
 					return g.resolveType(p2, nil, &ast.Ident{Name: x.Sel.Name}, depth+1)
 				}
+			}
+			if f != nil && importOf(f, q.Name) == "bytes" && x.Sel.Name == "Buffer" {
+				return tBuffer
 			}
 			return &gtype{kind: kOther, name: q.Name + "." + x.Sel.Name, valueKind: -1}
 		}
